@@ -27,12 +27,12 @@ type renderer struct {
 
 func bareEscape(s string) string {
 	var sb strings.Builder
-	for _, r := range s {
-		switch r {
+	for i := 0; i < len(s); i++ { // bytes, so that invalid UTF-8 is passed through unchanged
+		switch s[i] {
 		case '(', ')', '"', '\\', '\t', '\r', '\n', ' ':
 			sb.WriteByte('\\')
 		}
-		sb.WriteRune(r)
+		sb.WriteByte(s[i])
 	}
 	return sb.String()
 }
@@ -43,10 +43,8 @@ func quoteEscape(s string) string {
 	return `"` + s + `"`
 }
 
-// validUTF8Only: the renderers iterate by rune; operands here are always valid UTF-8.
-
 func (r *renderer) token(s string) {
-	x := rapid.IntRange(0, 99).Draw(r.t, "tok_form")
+	x := uni(r.t, "tok_form", 100)
 	switch {
 	case s == "":
 		r.quoted++
@@ -78,7 +76,7 @@ func (r *renderer) value(c *cond) {
 	case tFloat:
 		f := byte('g')
 		if !math.IsInf(c.f, 0) && !math.IsNaN(c.f) {
-			switch rapid.IntRange(0, 5).Draw(r.t, "float_fmt") {
+			switch uni(r.t, "float_fmt", 6) {
 			case 0:
 				f = 'e'
 			case 1:
@@ -156,7 +154,7 @@ func (r *renderer) item(c *cond, top bool) {
 }
 
 func (r *renderer) sep(mandatory bool) string {
-	x := rapid.IntRange(0, 99).Draw(r.t, "ws")
+	x := uni(r.t, "ws", 100)
 	switch {
 	case !mandatory && x < 40:
 		r.tightParen++
@@ -165,7 +163,7 @@ func (r *renderer) sep(mandatory bool) string {
 		return " "
 	default:
 		r.wideWS++
-		return string(rapid.SliceOfN(rapid.SampledFrom([]rune{' ', ' ', '\t', '\n', '\r'}), 1, 3).Draw(r.t, "ws_run"))
+		return string(rapid.SliceOfN(from([]rune{' ', ' ', '\t', '\n', '\r'}), 1, 3).Draw(r.t, "ws_run"))
 	}
 }
 
@@ -198,7 +196,7 @@ func (r *renderer) text(m *qmodel) string {
 		sb.WriteString(p)
 	}
 	// trailing blanks are harmless in the grammar
-	if rapid.IntRange(0, 9).Draw(r.t, "trail") == 0 {
+	if uni(r.t, "trail", 10) == 0 {
 		sb.WriteString(" ")
 	}
 	return sb.String()
